@@ -115,9 +115,14 @@ def _pp_hook(v, val):
     if isinstance(v, T) and v.op == 'mcall' and v.args[1] in (
             'parseString', 'parse_string'):
         g = ev(v.args[0], val, hooks)
-        s = ev(v.args[2], val, hooks)
+        pos_, kw_ = [], {}
+        for a_ in v.args[2:]:
+            if isinstance(a_, T) and a_.op == 'kw':
+                kw_[a_.args[0]] = ev(a_.args[1], val, hooks)
+            else:
+                pos_.append(ev(a_, val, hooks))
         try:
-            return g.parseString(s)
+            return getattr(g, v.args[1])(*pos_, **kw_)
         except pp.ParseException:
             raise Raised('pyparsing.ParseException')
     if isinstance(v, T) and v.op == 'attr' and isinstance(v.args[0], T) \
